@@ -544,6 +544,15 @@ def build_case(rng, tier):
             snap['elsewhere/' + named.group(1)] = (b'[Decoy]\nmatch: amount > 0 or amount < 0\ncategory: Decoy\nsubcategory: Wrong\n' if kind == 'rules'
                                                    else b'[Decoy]\nfilter: total > 0 or total < 0\n')
             cwd, cfg_arg = 'elsewhere', os.path.relpath(base + 'config', 'elsewhere')
+        if cls not in ('absent', 'vanish') and kind in ('rules', 'views') and rng.random() < 0.2:
+            # the file is reached through a symbolic link whose target carries another name (a shared rules file):
+            # it is still the budget's rules / views file, and what is wrong with it is reported alike
+            store = base + 'shared/' + ('household-rules.txt' if kind == 'rules' else 'views.txt')
+            snap[store] = snap.pop(target)
+            snap[target + '@'] = ('../shared/' + os.path.basename(store)).encode()
+            if reads:
+                reads = dict(reads)
+                reads[store] = reads[target]
         case['commands'].append({'kind': kind, 'class': cls, 'world': util.snap_to_json(snap), 'target': target,
                                  'cfg': cfg_arg, 'cwd': cwd, 'reads': reads})
     return case
